@@ -16,6 +16,8 @@ CLAIMS = {
          "trusts rustc's const evaluator for table bytes and MIR for bodies; RFC 8259 escape set encoded in the rule file"),
  "C07": ("every constant table and constant the float paths depend on is compared entry by entry with independent big-integer generators (exhaustive over each table: 651 power-of-five pairs, 1308 shift digits, exact powers of ten, RawFloat constants, x86 multiplier words); the sign parameter reaches every float/integer result (dependence analysis, sign of zero included); Eisel-Lemire/long-mantissa results pass an infinity test; typed entry points contain no narrowing cast. Correct rounding of the algorithms using the tables is NOT decided",
          "trusts rustc's const evaluator, the published table generators re-implemented in sa/oracles.py, and Python's correctly rounded int->float"),
+ "C09": ("decoder tables and constants decided exhaustively against the RFC/Unicode definitions (ESCAPED_TAB 256 entries, the four DIGIT_TO_VAL32 planes at the offsets the code uses, UTF-16/UTF-8 constants of both surrogate decoders and the encoder, U+FFFD replacement), one control-byte threshold in every string scanner with the escape branch taken only after the control test of the same block, StringBlock::LANES = lanes of its vector, and look-ahead after a high surrogate peeked rather than consumed on every path to the lossy replacement. Behaviour at block boundaries, borrow-vs-copy and lossy UTF-8 repair are NOT decided",
+         "trusts rustc's const evaluator and MIR; RFC 8259 / UTF-8 / UTF-16 definitions encoded in sa/oracles.py"),
  "C18": ("static protocol obligations of the publish-once caches decided on the MIR of the current tree (weak-CAS discipline, hand-over type agreement, loser cleanup and returned pointer, owner clone/drop pairing, memory orderings); each is a necessary condition of C18; behaviour under interleavings is NOT decided",
          "trusts rustc's MIR and callee resolution, and the memory model's meaning of the ordering constants"),
 }
